@@ -221,6 +221,7 @@ def paged_contract(p: Paged):
     # the loop under the invariant is found by what it iterates (self.<field>, possibly through enumerate / a local alias),
     # not by its position in the source
     c_.loop_finder = lambda ex, fnode, node: with_counters(spec_, node) if isinstance(node, ast.For) and iterates(fnode, node.iter, ("self", p.field)) else None
+    c_.loop_obligations = [(k_, f"units.{cj}") for k_ in ("inv-init", "inv-preserve") for cj in ("count", "number", "text")]
     return c_
 
 
@@ -264,6 +265,31 @@ def counters_of(node):
         if name is not None and stores.get(name) == 1 and name not in targets:
             out[name] = step
     return out
+
+
+def while_as_for(node):
+    """`while i < len(xs): <body with exactly one unconditional i += 1, no continue>`  ->  the equivalent
+    `for k in range(len(xs)): i = k; <body>` (valid when i == 0 at loop entry, which the executor checks), else None."""
+    import copy
+    if not isinstance(node, ast.While) or node.orelse:
+        return None
+    t = node.test
+    if not (isinstance(t, ast.Compare) and len(t.ops) == 1 and isinstance(t.ops[0], (ast.Lt, ast.NotEq)) and isinstance(t.left, ast.Name)
+            and isinstance(t.comparators[0], ast.Call) and isinstance(t.comparators[0].func, ast.Name) and t.comparators[0].func.id == "len"
+            and len(t.comparators[0].args) == 1):
+        return None
+    i = t.left.id
+    if counters_of(node).get(i) != 1:
+        return None
+    if any(isinstance(n, ast.Continue) for b in node.body for n in ast.walk(b)):
+        return None
+    k = ast.Name(f"{i}__pos", ast.Store())
+    loop = ast.For(k, ast.Call(ast.Name("range", ast.Load()), [copy.deepcopy(t.comparators[0])], []),
+                   [ast.Assign([ast.Name(i, ast.Store())], ast.Name(f"{i}__pos", ast.Load()))] + list(node.body), [])
+    ast.copy_location(loop, node)
+    ast.fix_missing_locations(loop)
+    loop._c03_index = i
+    return loop
 
 
 def with_counters(spec, node):
@@ -312,6 +338,8 @@ def iterates(fnode, expr, what, depth=0):
     if isinstance(expr, ast.Call) and isinstance(expr.func, ast.Name) and expr.func.id == "range" and len(expr.args) == 1 \
             and isinstance(expr.args[0], ast.Call) and isinstance(expr.args[0].func, ast.Name) and expr.args[0].func.id == "len" and expr.args[0].args:
         return iterates(fnode, expr.args[0].args[0], what, depth + 1)      # for i in range(len(xs)): the i-th iteration handles xs[i]
+    if isinstance(expr, (ast.ListComp, ast.GeneratorExp)) and len(expr.generators) == 1 and not expr.generators[0].ifs:
+        return iterates(fnode, expr.generators[0].iter, what, depth + 1)      # one element per source element, in order
     if isinstance(expr, ast.Name):
         d = _single_def(fnode, expr.id)
         return d is not None and iterates(fnode, d, what, depth + 1)
@@ -571,9 +599,20 @@ def build_slides_contract():
         if iterates(fnode, node.iter, ("name", "slides_texts")):
             return with_counters(outer_spec, node)
         outer = [n for n in ast.walk(fnode) if isinstance(n, ast.For) and iterates(fnode, n.iter, ("name", "slides_texts"))]
-        if len(outer) == 1 and any(x is node for x in ast.walk(outer[0])) and isinstance(outer[0].target, ast.Tuple) \
-                and isinstance(outer[0].target.elts[-1], ast.Name) and iterates(fnode, node.iter, ("name", outer[0].target.elts[-1].id)):
-            return with_counters(inner_spec, node)
+        if len(outer) == 1 and any(x is node for x in ast.walk(outer[0])) and node is not outer[0]:
+            # the inner loop walks the blocks of the current entry: the outer loop's element variable, or a local bound to
+            # slides_texts[<index>] in the outer body
+            cands = set()
+            if isinstance(outer[0].target, ast.Tuple) and isinstance(outer[0].target.elts[-1], ast.Name):
+                cands.add(outer[0].target.elts[-1].id)
+            elif isinstance(outer[0].target, ast.Name) and not (isinstance(outer[0].iter, ast.Call) and ast.unparse(outer[0].iter.func) == "range"):
+                cands.add(outer[0].target.id)
+            for b in outer[0].body:
+                if isinstance(b, ast.Assign) and len(b.targets) == 1 and isinstance(b.targets[0], ast.Name) and isinstance(b.value, ast.Subscript) \
+                        and isinstance(b.value.value, ast.Name) and b.value.value.id == "slides_texts":
+                    cands.add(b.targets[0].id)
+            if any(iterates(fnode, node.iter, ("name", c_)) for c_ in cands):
+                return with_counters(inner_spec, node)
         return None
 
     c_ = FnContract(
@@ -947,11 +986,108 @@ class C03Executor(ET.ETreeMixin, X.UnitsExecutor):
         self.tag_havoc(st, "state after a loop cut", s)
         return super().symbolic_for(s, st, it)
 
+
+    def comp_value(self, st, v, node):
+        # a unit object built by a comprehension is kept as its observation (real accessors executed), like a yielded unit
+        if isinstance(v, VRef) and st.obj(v.ref).kind == "obj" and st.obj(v.ref).cls:
+            mod = self.class_module(st.obj(v.ref).cls)
+            cls = st.obj(v.ref).cls
+            if mod is not None and self.find_method(mod, cls, "get_metadata") is not None and self.find_method(mod, cls, "get_text") is not None:
+                pr = self.project_unit(st, v, node)
+                if len(pr) == 1 and pr[0][0] is st:
+                    return AUnit(pr[0][1], pr[0][2])
+        return v
+
+    def b_map(self, st, args, kwargs, node):
+        """map(f, xs) over a symbolic sequence == (f(x) for x in xs) when f is pure and single-valued there"""
+        if len(args) == 2 and self.concrete_items(st, args[1]) is None and self.seq_view(st, args[1]) is not None:
+            f = args[0]
+            length, elem = self.seq_view(st, args[1])
+            snap = st.fork()
+
+            def at(k):
+                s = snap.fork()
+                self.sinks.append([])
+                try:
+                    r = self.call(s, f, [elem(k)], {}, node)
+                finally:
+                    sink = self.sinks.pop()
+                if sink or len(r) != 1 or len(r[0][0].pc) != len(snap.pc):
+                    raise X.Unsupported(f"{self.loc(node)} map() with a function that may raise / fork on the elements")
+                v = r[0][1]
+                return v if not isinstance(v, VRef) else self.comp_value(r[0][0], v, node)
+            sample = at(K)
+            if isinstance(sample, VRef):
+                raise X.Unsupported(f"{self.loc(node)} map() producing heap objects")
+            return [(st, VSeq(length, at, X.ekind_of_value(sample)))]
+        return self.havoc_call(st, "map", args, node)
+
     def s_While(self, s, st):
+        cache = self.__dict__.setdefault("_while_for", {})
+        loop = cache.get(id(s)) or while_as_for(s)
+        if loop is not None:
+            v = st.lookup(loop._c03_index)
+            if isinstance(v, VInt) and v.const() == 0:
+                cache[id(s)] = loop          # one synthetic node per while statement (loop specs are cached per node)
+                return self.s_For(loop, st)
         spec = self.loop_spec(s)
         if spec is None or (spec.inv is None and spec.unroll is None):
             st.assume(OVER)
         return super().s_While(s, st)
+
+    def s_For(self, s, st):
+        d = self._as_comprehension(s, st)
+        if d is not None:
+            return self.exec_stmt(d, st)
+        return super().s_For(s, st)
+
+    def _as_comprehension(self, s, st):
+        """`for x in xs: [t = e;]* [if c:] L.append(E)` over a symbolic sequence and without an invariant of its own is executed
+        as `L.extend([E for x in xs if c])` (locals t substituted): exact, and the comprehension model applies (PY-COMP)."""
+        import copy
+        if s.orelse or self.loop_spec(s) is not None or self._has_yield(s.body):
+            return None
+        body = list(s.body)
+        temps = {}
+        while body and isinstance(body[0], ast.Assign) and len(body[0].targets) == 1 and isinstance(body[0].targets[0], ast.Name) and len(body) > 1:
+            temps[body[0].targets[0].id] = body[0].value
+            body.pop(0)
+        if len(body) != 1:
+            return None
+        last, cond = body[0], None
+        if isinstance(last, ast.If) and not last.orelse and len(last.body) == 1:
+            cond, last = last.test, last.body[0]
+        if not (isinstance(last, ast.Expr) and isinstance(last.value, ast.Call) and isinstance(last.value.func, ast.Attribute)
+                and last.value.func.attr == "append" and len(last.value.args) == 1 and not last.value.keywords):
+            return None
+        L = last.value.func.value
+        if not isinstance(L, (ast.Name, ast.Attribute)):
+            return None
+        tnames = {n.id for n in ast.walk(s.target) if isinstance(n, ast.Name)}
+        used = {n.id for n in ast.walk(L) if isinstance(n, ast.Name)}
+        if used & (tnames | set(temps)):
+            return None
+        for e in list(temps.values()) + [last.value.args[0]] + ([cond] if cond is not None else []):
+            if any(isinstance(n, (ast.Yield, ast.YieldFrom, ast.NamedExpr, ast.Await, ast.Lambda)) for n in ast.walk(e)):
+                return None
+        probe = ast.ListComp(ast.Name("_", ast.Load()), [ast.comprehension(s.target, s.iter, [], 0)])
+        ast.copy_location(probe, s)
+        ast.fix_missing_locations(probe)
+        if self._probe_iter(probe, st) is None:
+            return None
+
+        class Sub(ast.NodeTransformer):
+            def visit_Name(self, node):
+                if isinstance(node.ctx, ast.Load) and node.id in temps:
+                    return self.visit(copy.deepcopy(temps[node.id]))
+                return node
+        E = Sub().visit(copy.deepcopy(last.value.args[0]))
+        ifs = [Sub().visit(copy.deepcopy(cond))] if cond is not None else []
+        comp = ast.ListComp(E, [ast.comprehension(copy.deepcopy(s.target), copy.deepcopy(s.iter), ifs, 0)])
+        call = ast.Expr(ast.Call(ast.Attribute(copy.deepcopy(L), "extend", ast.Load()), [comp], []))
+        ast.copy_location(call, s)
+        ast.fix_missing_locations(call)
+        return call
 
     def e_YieldFrom(self, n, st):
         v = n.value
@@ -1174,9 +1310,12 @@ def _has_contract_loop(ex, c, fnode):
     for n in ast.walk(fnode):
         if isinstance(n, (ast.For, ast.While)) and c.loop_finder(ex, fnode, n) is not None:
             return True
-        if isinstance(n, ast.YieldFrom) and isinstance(n.value, (ast.GeneratorExp, ast.ListComp)) and len(n.value.generators) == 1:
-            g = n.value.generators[0]
-            loop = ast.For(g.target, g.iter, [ast.Pass()], [])
+        if isinstance(n, ast.While):
+            w = while_as_for(n)
+            if w is not None and c.loop_finder(ex, fnode, w) is not None:
+                return True
+        if isinstance(n, ast.YieldFrom):
+            loop = ast.For(ast.Name("_", ast.Store()), n.value, [ast.Pass()], [])
             if c.loop_finder(ex, fnode, loop) is not None:
                 return True
     return False
@@ -1195,19 +1334,27 @@ def _make_safe(c):
             # helper, became a while loop, ...) is outside what this contract can follow: the FUNCTION is OUT-OF-SUBSET and the
             # native replayer decides
             fnode = cx.ex.module.functions.get(c.target.split("::")[1]) if cx.ex.contract is c else None
-            if fnode is not None and not _has_contract_loop(cx.ex, c, fnode) and getattr(c, "loop_optional", False):
-                # this version of the function has no such loop and does not need one: the invariant obligations are proof steps
-                # of the loop form only.  Their ids are kept (trivially true, marked) so that the obligation set does not depend on
-                # how the filter is written; the claims themselves (ensures) are discharged as always.
-                for kind_, lab_ in getattr(c, "loop_obligations", []):
-                    cx.ex.add_vc(kind_, lab_, [], z3.BoolVal(True), note="not applicable: no loop in this version of the function (ensures proved without it)")
-                return h0(cx) if h0 is not None else z3.BoolVal(True)
-            if fnode is not None and not _has_contract_loop(cx.ex, c, fnode):
+            if fnode is not None and not _has_contract_loop(cx.ex, c, fnode) and not getattr(c, "loop_optional", False):
                 from pyvc.ops import Unsupported
                 raise Unsupported("the loop over the source sequence, for which the invariant is stated, was not found in this function")
             return h0(cx) if h0 is not None else z3.BoolVal(True)
         hyps._c03_safe = True
         c.hyps = hyps
+    if getattr(c, "loop_obligations", None) and c.ensures:
+        l0, f0 = c.ensures[0]
+
+        def first(cx, f0=f0, c=c):
+            # The invariant obligations are proof steps of the loop form.  A version of the function that reaches the same
+            # ensures without such a loop (comprehension, `yield from <sequence>`, helper) does not generate them; their ids are
+            # kept (trivially true, marked) so that the obligation set does not depend on how the traversal is written.  The
+            # claims themselves (ensures) are discharged as always.
+            if cx.ex.contract is c:
+                for kind_, lab_ in c.loop_obligations:
+                    if f"{cx.ex.oid_prefix}/{kind_}#{lab_}" not in cx.ex.obls:
+                        cx.ex.add_vc(kind_, lab_, [], z3.BoolVal(True), note="not applicable: no invariant-cut loop on this path (ensures proved without it)")
+            return f0(cx)
+        first._c03_safe = True
+        c.ensures[0] = (l0, first)
     for spec in list(c.loops.values()):
         spec.inv = _safe(spec.inv)
     lf = getattr(c, "loop_finder", None)
